@@ -18,6 +18,8 @@ import (
 	"fmt"
 	"os"
 
+	"github.com/valyala/fastjson"
+
 	"github.com/sourcenetwork/defradb/client"
 	"github.com/sourcenetwork/defradb/client/request"
 )
@@ -63,29 +65,43 @@ func (db *DB) basicImport(ctx context.Context, filepath string) (err error) {
 		}
 
 		for d.More() {
-			docMap := map[string]any{}
-			err = d.Decode(&docMap)
+			// The document is kept in its textual form so that numbers are not converted to float64,
+			// which would change integers beyond 2^53.
+			var rawDoc json.RawMessage
+			err = d.Decode(&rawDoc)
+			if err != nil {
+				return NewErrJSONDecode(err)
+			}
+			var parser fastjson.Parser
+			docValue, err := parser.ParseBytes(rawDoc)
+			if err != nil {
+				return NewErrJSONDecode(err)
+			}
+			docObject, err := docValue.Object()
 			if err != nil {
 				return NewErrJSONDecode(err)
 			}
 
-			// check if self referencing and remove from docMap for key creation
+			// check if self referencing and remove from the document for key creation
 			resetMap := map[string]any{}
+			newDocID := docObject.Get(request.NewDocIDFieldName)
 			for _, field := range col.Schema().Fields {
 				if field.Kind.IsObject() && !field.Kind.IsArray() {
-					if val, ok := docMap[field.Name+request.RelatedObjectID]; ok {
-						if docMap[request.NewDocIDFieldName] == val {
-							resetMap[field.Name+request.RelatedObjectID] = val
-							delete(docMap, field.Name+request.RelatedObjectID)
-						}
+					fieldName := field.Name + request.RelatedObjectID
+					val := docObject.Get(fieldName)
+					if val != nil && newDocID != nil &&
+						val.Type() == fastjson.TypeString && newDocID.Type() == fastjson.TypeString &&
+						string(val.GetStringBytes()) == string(newDocID.GetStringBytes()) {
+						resetMap[fieldName] = string(val.GetStringBytes())
+						docObject.Del(fieldName)
 					}
 				}
 			}
 
-			delete(docMap, request.DocIDFieldName)
-			delete(docMap, request.NewDocIDFieldName)
+			docObject.Del(request.DocIDFieldName)
+			docObject.Del(request.NewDocIDFieldName)
 
-			doc, err := client.NewDocFromMap(docMap, col.Definition())
+			doc, err := client.NewDocFromJSON(docObject.MarshalTo(nil), col.Definition())
 			if err != nil {
 				return NewErrDocFromMap(err)
 			}
